@@ -8,7 +8,7 @@ From G04 Require Import Access AccessCheck AccessProofs.
 Lemma gap_unspecified_literal :
   localhost_checks_unspecified = false ->
   let cfg := {| c_name := b "p"; c_timeframe := []; c_basic := None; c_deny_localhost := true;
-                c_deny := None; c_aliases := []; c_mitm := false; c_idna := fun h => h |} in
+                c_deny := None; c_aliases := []; c_mitm := false; c_idna := (fun h => h); c_handler := false |} in
   let q := {| r_method := b "GET"; r_host := b "[::0]:80"; r_hdr := [] |} in
   must_fail cfg {| now_day := 0; now_hour := 0 |} q CLocal = true /\
   passes cfg {| now_day := 0; now_hour := 0 |} (r_host q) (r_hdr q) CLocal = true.
